@@ -3,25 +3,79 @@
 package rest
 
 // C18: the gates as rest/engine.go wires them for routes declared with WithJwt /
-// WithJwtTransition / WithSignature (strict).  The handler returned is the server's router
-// after bindRoutes, i.e. what http.Server would call.
+// WithJwtTransition / WithSignature (strict), under every server wiring of Gates.tla Part 4:
+// the native chain (all / some / none of RestConf.Middlewares), a user supplied chain
+// (WithChain), middlewares added with Use, further route options.  The handler returned is
+// the server's router after bindRoutes, i.e. what http.Server would call.
 
 import (
+	"encoding/json"
 	"net/http"
+	"os"
+	"strconv"
 	"testing"
 	"time"
 
+	"github.com/zeromicro/go-zero/rest/chain"
 	"github.com/zeromicro/go-zero/rest/router"
 )
 
-func c18Server(opts ...RunOption) *Server {
-	conf := RestConf{MaxBytes: 1 << 20}
-	conf.Middlewares.Recover = true
-	conf.Middlewares.MaxBytes = true
-	conf.Middlewares.Gunzip = true
+// the wirings the case sets are driven under in turn (VERIF_C18_WIRES: the JSON list TLC
+// enumerated from Gates!WireCfgs; unset: the one native chain the check started with)
+var (
+	c18Wires    []c18Wire
+	c18WireNext int
+)
+
+func c18NextWire(decl string) c18Wire {
+	if c18Wires == nil {
+		if s := os.Getenv("VERIF_C18_WIRES"); s != "" {
+			if err := json.Unmarshal([]byte(s), &c18Wires); err != nil {
+				panic("VERIF_C18_WIRES: " + err.Error())
+			}
+		}
+		if len(c18Wires) == 0 {
+			c18Wires = []c18Wire{{Level: "engine", Chain: "nativeBase"}}
+		}
+		seed, _ := strconv.Atoi(os.Getenv("VERIF_SEED"))
+		c18WireNext = seed * 7
+	}
+	w := c18Wires[c18WireNext%len(c18Wires)]
+	c18WireNext++
+	w.Decl = decl
+	return w
+}
+
+// a user middleware that lets everything through
+func c18PassChain(next http.Handler) http.Handler {
+	return http.HandlerFunc(func(w http.ResponseWriter, r *http.Request) { next.ServeHTTP(w, r) })
+}
+
+func c18PassUse(next http.HandlerFunc) http.HandlerFunc {
+	return func(w http.ResponseWriter, r *http.Request) { next(w, r) }
+}
+
+func c18Server(w c18Wire, opts ...RunOption) *Server {
+	conf := RestConf{MaxBytes: 1 << 20, MaxConns: 10000}
+	conf.Name = "c18"
+	m := &conf.Middlewares
+	switch w.Chain {
+	case "nativeFull":
+		m.Trace, m.Log, m.Prometheus, m.MaxConns, m.Breaker, m.Shedding = true, true, true, true, true, true
+		m.Timeout, m.Recover, m.Metrics, m.MaxBytes, m.Gunzip = true, true, true, true, true
+	case "nativeBase":
+		m.Recover, m.MaxBytes, m.Gunzip = true, true, true
+	case "custom":
+		opts = append(opts, WithChain(chain.New(c18PassChain, c18PassChain)))
+	case "customEmpty":
+		opts = append(opts, WithChain(chain.New()))
+	}
 	srv := &Server{ngin: newEngine(conf), router: router.NewRouter()}
 	for _, opt := range opts {
 		opt(srv)
+	}
+	for i := 0; i < w.Use; i++ {
+		srv.Use(c18PassUse)
 	}
 	return srv
 }
@@ -36,34 +90,38 @@ func c18Routes(methods, paths []string, next http.Handler) []Route {
 	return rs
 }
 
-func c18MakeJwtGate(t *testing.T, cur, prev string, passiveCallback bool, next http.Handler) http.Handler {
+func c18MakeGate(t *testing.T, w c18Wire, g c18GateSpec, next http.Handler) http.Handler {
 	var opts []RunOption
-	if passiveCallback {
+	if g.Callback {
 		opts = append(opts, WithUnauthorizedCallback(func(w http.ResponseWriter, r *http.Request, err error) {
 			_ = err
 		}))
 	}
-	srv := c18Server(opts...)
-	ropt := WithJwt(cur)
-	if prev != "" {
-		ropt = WithJwtTransition(cur, prev)
+	srv := c18Server(w, opts...)
+	var ropts []RouteOption
+	methods := []string{http.MethodGet, http.MethodPost, http.MethodDelete}
+	paths := []string{"/protected"}
+	if w.Decl == "jwt" || w.Decl == "both" {
+		if g.Prev != "" {
+			ropts = append(ropts, WithJwtTransition(g.Cur, g.Prev))
+		} else {
+			ropts = append(ropts, WithJwt(g.Cur))
+		}
 	}
-	srv.AddRoutes(c18Routes([]string{http.MethodGet, http.MethodPost, http.MethodDelete}, []string{"/protected"}, next), ropt)
-	if err := srv.ngin.bindRoutes(srv.router); err != nil {
-		t.Fatal(err)
+	if w.Decl == "cs" || w.Decl == "both" {
+		sig := SignatureConf{Strict: true, Expiry: g.Tolerance}
+		for _, k := range g.Keys {
+			sig.PrivateKeys = append(sig.PrivateKeys, PrivateKeyConf{Fingerprint: k.Fp, KeyFile: k.File})
+		}
+		ropts = append(ropts, WithSignature(sig))
+		methods = []string{http.MethodGet, http.MethodPost, http.MethodPut, http.MethodDelete, http.MethodPatch,
+			http.MethodHead, http.MethodOptions}
+		paths = []string{"/a/b", "/a/c"}
 	}
-	return srv.router
-}
-
-func c18MakeCsGate(t *testing.T, keys []c18KeyFile, tolerance time.Duration, next http.Handler) http.Handler {
-	sig := SignatureConf{Strict: true, Expiry: tolerance}
-	for _, k := range keys {
-		sig.PrivateKeys = append(sig.PrivateKeys, PrivateKeyConf{Fingerprint: k.Fp, KeyFile: k.File})
+	if w.Ropts {
+		ropts = append(ropts, WithPriority(), WithTimeout(time.Hour), WithMaxBytes(1<<20))
 	}
-	srv := c18Server()
-	methods := []string{http.MethodGet, http.MethodPost, http.MethodPut, http.MethodDelete, http.MethodPatch,
-		http.MethodHead, http.MethodOptions}
-	srv.AddRoutes(c18Routes(methods, []string{"/a/b", "/a/c"}, next), WithSignature(sig))
+	srv.AddRoutes(c18Routes(methods, paths, next), ropts...)
 	if err := srv.ngin.bindRoutes(srv.router); err != nil {
 		t.Fatal(err)
 	}
